@@ -966,6 +966,42 @@ fn c18(r: &Runner) {
             }
         });
     }
+    // one GIANT width (65 664 bits = 1026 limbs): bit lengths beyond 2^16, where an exponent squeezed through a 16-bit
+    // type would wrap; values around every power-of-two bit length up to the width
+    if !SWEEP {
+        let bits = 65_664usize;
+        let m = pow2(bits);
+        let mut vals: Vec<BigUint> = vec![BigUint::zero(), BigUint::one(), &m - 1u32, &m - 2u32];
+        for k in [23usize, 24, 52, 53, 63, 64, 127, 128, 1023, 1024, 2047, 2048, 4095, 4096, 16_383, 16_384, 32_767, 32_768, 65_535, 65_536, 65_537, 65_599, 65_600, 65_601, 65_662, 65_663] {
+            let p = pow2(k);
+            for v in [&p - 1u32, p.clone(), &p + 1u32, &p * ((1u64 << 53) + 1), &p * ((1u64 << 24) + 1), &p * 3u32] {
+                if v < m {
+                    vals.push(v);
+                }
+            }
+        }
+        vals.sort();
+        vals.dedup();
+        let lv: Vec<Limbs> = vals.iter().map(|v| to_limbs(v, bits)).collect();
+        r.universe(&format!("GIANT U{bits} -> f64/f32 ({} values around bit lengths 2^k up to the width)", lv.len()), bits, lv.len(), |i, l| {
+            let args = [vu(&lv[i])];
+            l.states(1);
+            for op in [Op::f64_from, Op::f64_from_ref, Op::f32_from, Op::f32_from_ref] {
+                exec(l, bits, op, &args);
+            }
+        });
+        // float -> the giant type: the largest finite values, halves, specials
+        let fl: Vec<u64> = [0.0f64, 0.5, 1.0, 1.5, 255.5, 4503599627370497.0, 9007199254740993.0, 1e300, f64::MAX, f64::INFINITY, f64::NEG_INFINITY, f64::NAN, -1.0, -0.4]
+            .iter()
+            .map(|f| f.to_bits())
+            .collect();
+        r.universe(&format!("GIANT f64 -> U{bits} ({} patterns)", fl.len()), bits, fl.len(), |i, l| {
+            l.states(1);
+            for &op in FROM_F64 {
+                exec(l, bits, op, &[V::F(fl[i])]);
+            }
+        });
+    }
     // ALL 2^32 f32 bit patterns
     let sweep_widths: &[usize] = if SWEEP { &[] } else if r.is_thorough() { &[0, 1, 8, 24, 25, 64, 128, 129] } else { &[64] };
     for &bits in sweep_widths {
